@@ -55,8 +55,11 @@ def gen(rng, tier):
         py, jn = (rng.random() < 0.1 and not indented), rng.random() < 0.1
         pcm = b"" if empty_set else cm
         cmds = [gens.parse_cmd(0, b"/g/f.conf", e["bytes"], dl, pcm, py, jn), "getall 0"]
+        piped = (not py and not jn and rng.random() < 0.15)       # the files with the comment lines arrive through a named pipe
         for i, v in enumerate(variants):
-            cmds += [gens.parse_cmd(1 + i, b"/g/f.conf", v, dl, pcm, py, jn), "getall %d" % (1 + i)]
+            pc = gens.parse_cmd(1 + i, b"/g/f.conf", v, dl, pcm, py, jn)
+            if piped: pc = "parsepipe " + " ".join(pc.split()[1:6])
+            cmds += [pc, "getall %d" % (1 + i)]
         sc = Scenario(cmds, tags=("class" + grammar.cls(dl),))
         sc.npairs = 1 + len(variants)
         if variants and not py and not jn:
